@@ -79,7 +79,8 @@ THEOREMS = ["Okane.C07.C07_total", "Okane.C07.C07_closed_form", "Okane.C07.C07_r
 
 ALPHABET = "0159,.-"
 POSITIONS = ["amount", "paren", "neg", "cost", "total", "lot", "lottotal", "balance", "balonly", "format", "pricedb",
-             "bare", "barebal", "factor"]   # the last three: numbers written without a commodity
+             "bare", "barebal", "factor",   # numbers written without a commodity
+             "tryfrom", "tryfromneg"]       # the library entry expr::Amount::try_from on `<lit> USD` / `-<lit> USD`
 
 # ---------------------------------------------------------------------------------------------
 # the property's statement, written a third time (python, regular expression) — independent of Lean and Rust
@@ -172,6 +173,16 @@ def oracle_pos(pos, s, rec):
             if dec(ws[1]) != "USD" or got != lit_value(s):
                 return "price-db rate %r read as %s %s" % (s, got, dec(ws[1]))
         return None
+    if pos in ("tryfrom", "tryfromneg"):
+        # unary_amount takes ONE leading minus itself and flips the sign of what follows: `-<lit>` is the literal `-lit`
+        # when lit has no sign of its own; doubly signed texts (`--5` = 5) are the importer's business (C16_cell_minus_signs)
+        if s.startswith("-") and (pos == "tryfromneg" or s.startswith("--")):
+            return None
+        if pos == "tryfromneg":
+            s = "-" + s
+        if rec.startswith("ok ") and lit_value(s) == 0 and wellformed(s):
+            return None     # the sign of a zero is not the property's subject
+        ok = wellformed(s) and representable(s)
     if rec.startswith("ok "):
         base, _, fmt = rec.partition(" fmt=")
         msg = oracle_lit(s, base)
@@ -259,7 +270,7 @@ def run(chk):
     chk.rule = ("lit: every string over {0,1,5,9,',','.','-'} up to length 6 (quick) / 7 (thorough) + random literals of up to 45 digits "
                 "(plain / grouped / leading zeros / 0-45 decimal places / around 2^96, 10^28, 2^127; 25% mutated: stray or missing "
                 "separator, incomplete group, trailing or leading junk incl. non-ASCII) through PrettyDecimal::from_str + to_string; "
-                "pos: every string up to length 3 (quick) / 4 (thorough) + random ones embedded in 14 syntactic positions (three of them without a commodity) through the real "
+                "pos: every string up to length 3 (quick) / 4 (thorough) + random ones embedded in 16 syntactic positions (three of them without a commodity, two through expr::Amount::try_from) through the real "
                 "ledger parser / price-db loader. Distinct = distinct (stream, position, text); non-trivial = contains a digit.")
     chk.assumptions = ["rust_decimal Display / rescale / try_from_i128_with_scale and winnow take_while / try_map semantics are modelled from "
                        "their sources (validated by this correspondence only)",
@@ -329,7 +340,7 @@ def run(chk):
         chk.violation("c07 pos stream: tools returned %d/%d records for %d cases" % (len(pimpl), len(pmodel), len(plines)),
                       {"stream": "pos"}, no_failing_input=True, tag="corr")
         return
-    chk.streams["pos:14 positions x literals"] = len(plines)
+    chk.streams["pos:16 positions x literals"] = len(plines)
     for (p, s), a, b in zip(pcases, pimpl, pmodel):
         chk.case(("pos", p, s), nontrivial=any(c.isdigit() for c in s))
         chk.traces += 1
